@@ -129,9 +129,28 @@ fn nickel(t: &Sx) -> String {
         "fail" => "(std.fail_with \"boom\")".into(),
         "imp" => format!("(import \"{}.ncl\")", atom(&items[1])),
         "merge" => format!("({} & {})", a(1), a(2)),
+        // (nk <percent-encoded Nickel source>): an arbitrary Nickel expression
+        "nk" => format!("({})", pct_decode(atom(&items[1]))),
         "seq" => format!("(std.seq {} {})", a(1), a(2)),
         h => panic!("unknown term head {h}"),
     }
+}
+
+fn pct_decode(s: &str) -> String {
+    let b = s.as_bytes();
+    let mut out = Vec::new();
+    let mut i = 0;
+    while i < b.len() {
+        if b[i] == b'%' && i + 2 < b.len() {
+            let h = std::str::from_utf8(&b[i + 1..i + 3]).unwrap();
+            out.push(u8::from_str_radix(h, 16).unwrap());
+            i += 3;
+        } else {
+            out.push(b[i]);
+            i += 1;
+        }
+    }
+    String::from_utf8(out).unwrap()
 }
 
 fn budget(s: &Sx) -> u64 {
@@ -193,6 +212,14 @@ fn show_full(v: &NickelValue) -> String {
 }
 
 fn err_line(e: &nickel_lang_core::error::Error) -> String {
+    // an unbound identifier is reported by the typechecker (stand-alone program, REPL input) or by
+    // the evaluator (a file imported by a REPL input typechecks against the REPL's type
+    // environment): one class
+    if let nickel_lang_core::error::Error::TypecheckError(t) = e {
+        if format!("{t:?}").contains("UnboundIdentifier") {
+            return "ERR UnboundId".into();
+        }
+    }
     classify(e).line()
 }
 
@@ -300,9 +327,27 @@ fn run_repl_history(line: &str, oracle: &mut Oracle, scratch: &std::path::Path, 
     let mut defs: Vec<(String, String)> = Vec::new();
     let mut sess: Vec<String> = Vec::new();
     let mut orac: Vec<String> = Vec::new();
+    // files written by `(file NAME T)` inputs, importable as `(imp NAME)` / import "NAME.ncl"
+    *serial += 1;
+    let dir = scratch.join(format!("repl{}", *serial));
+    let mut digest = String::new();
+    oracle.import_dir = None;
     for inp in &inputs {
         let Sx::List(items) = inp else { panic!("input") };
         match atom(&items[0]) {
+            "file" => {
+                if digest.is_empty() {
+                    std::fs::create_dir_all(&dir).unwrap();
+                    repl.cache_mut().sources.add_import_paths(std::iter::once(dir.clone()));
+                }
+                let name = atom(&items[1]);
+                let text = nickel(&items[2]);
+                std::fs::write(dir.join(format!("{name}.ncl")), &text).unwrap();
+                digest.push_str(&format!("{name}={text};"));
+                oracle.import_dir = Some((dir.clone(), digest.clone()));
+                sess.push("bound".into());
+                orac.push("-".into());
+            }
             "def" => {
                 let x = atom(&items[1]).to_string();
                 let e = nickel(&items[2]);
@@ -393,6 +438,10 @@ fn run_repl_history(line: &str, oracle: &mut Oracle, scratch: &std::path::Path, 
             }
             h => panic!("unknown input {h}"),
         }
+    }
+    oracle.import_dir = None;
+    if !digest.is_empty() {
+        let _ = std::fs::remove_dir_all(&dir);
     }
     format!("{} || {}", sess.join(" | "), orac.join(" | "))
 }
